@@ -27,7 +27,7 @@ func gen(t *rapid.T) Case {
 			}
 		}
 		h.Ops = ops
-	} else if rapid.Bool().Draw(t, "probe") {
+	} else if rapid.IntRange(0, 2).Draw(t, "probe") > 0 {
 		h.Probe = true
 		if rapid.IntRange(0, 2).Draw(t, "narrow") > 0 {
 			// narrow fan-out: the tree gets four and more levels within the history's length
@@ -91,12 +91,86 @@ func probe(m *rtreekit.Model, b *geom.Bounds) string {
 	return ""
 }
 
+// nnWrong runs one k = 1 query and compares it with the minimum over all stored objects.
+func nnWrong(m *rtreekit.Model, p geom.Point, viaK bool) string {
+	best := math.Inf(1)
+	for _, o := range m.Live {
+		if d := rtreekit.BoxDist(p, o.Bounds()); d < best {
+			best = d
+		}
+	}
+	var o geom.Geom
+	if viaK {
+		o = m.Tree.NearestNeighbors(1, p)[0]
+	} else {
+		o = m.Tree.NearestNeighbor(p)
+	}
+	if o == nil {
+		return fmt.Sprintf("nearest-neighbour query from %v returned nil (size %d)", p, len(m.Live))
+	}
+	if got := rtreekit.BoxDist(p, o.Bounds()); vkit.Off(got-best, eps) {
+		return fmt.Sprintf("nearest-neighbour query from %v returned an object at distance %v, the minimum over the %d stored objects is %v (depth %d)", p, got, len(m.Live), best, m.Tree.Depth())
+	}
+	return ""
+}
+
+// exploit: the pruning of a k = 1 search relies on every node box being the smallest box around what is below it. When
+// the structure (read through the verif snapshot) shows a box that is larger than that, the stored objects that touch
+// the side on which it is too large are deleted as well (they are what still makes the too-large box "true" for the
+// search), and k = 1 queries are issued from a dense set of points outside that side and all around the box. Only the
+// answers of the public queries are judged.
+func exploit(m *rtreekit.Model, st rtreekit.Stale) (msg string, removed int) {
+	S, T := st.Stored, st.True
+	type side struct {
+		stale bool
+		touch func(b *geom.Bounds) bool
+	}
+	inY := func(b *geom.Bounds) bool { return b.Max.Y >= S.Min.Y && b.Min.Y <= S.Max.Y }
+	inX := func(b *geom.Bounds) bool { return b.Max.X >= S.Min.X && b.Min.X <= S.Max.X }
+	sides := []side{
+		{S.Min.X < T.Min.X, func(b *geom.Bounds) bool { return b.Min.X < T.Min.X && b.Max.X >= S.Min.X && inY(b) }},
+		{S.Max.X > T.Max.X, func(b *geom.Bounds) bool { return b.Max.X > T.Max.X && b.Min.X <= S.Max.X && inY(b) }},
+		{S.Min.Y < T.Min.Y, func(b *geom.Bounds) bool { return b.Min.Y < T.Min.Y && b.Max.Y >= S.Min.Y && inX(b) }},
+		{S.Max.Y > T.Max.Y, func(b *geom.Bounds) bool { return b.Max.Y > T.Max.Y && b.Min.Y <= S.Max.Y && inX(b) }},
+	}
+	for _, sd := range sides {
+		if !sd.stale {
+			continue
+		}
+		for i := 0; i < len(m.Live) && len(m.Live) > 1; {
+			if sd.touch(m.Live[i].Bounds()) {
+				if !m.DeleteLive(i) {
+					return fmt.Sprintf("Delete of stored object %v returned false", m.Live[i]), removed
+				}
+				removed++
+				continue
+			}
+			i++
+		}
+	}
+	if len(m.Live) == 0 {
+		return "", removed
+	}
+	w, h := math.Max(S.Max.X-S.Min.X, 1), math.Max(S.Max.Y-S.Min.Y, 1)
+	const n = 70
+	k := 0
+	for i := 0; i <= n; i++ {
+		for j := 0; j <= n; j++ {
+			p := geom.Point{X: S.Min.X - 1.5*w + 4*w*float64(i)/n + 0.013, Y: S.Min.Y - 1.5*h + 4*h*float64(j)/n + 0.007}
+			k++
+			if msg := nnWrong(m, p, k%2 == 0); msg != "" {
+				return msg, removed
+			}
+		}
+	}
+	return "", removed
+}
+
 func run(c Case) (v vkit.Verdict) {
 	m := rtreekit.NewModel(c)
 	var ev rtreekit.Events
 	v.Class("kind_" + c.Kind)
 	queries, probes := 0, 0
-	var recent []*geom.Bounds
 	for i, op := range c.Ops {
 		var msg string
 		if p := vkit.Catch(func() {
@@ -172,6 +246,19 @@ func run(c Case) (v vkit.Verdict) {
 					ev.Refilled = ev.Refilled || false
 				}
 			case "del":
+				defer func() {
+					if msg != "" || len(m.Live) == 0 {
+						return
+					}
+					for _, st := range rtreekit.StaleBoxes(m.Tree) {
+						v.Class("node_box_larger_than_its_subtree_seen")
+						var removed int
+						if msg, removed = exploit(m, st); msg != "" {
+							msg = fmt.Sprintf("a node box %v was left larger than the envelope %v of its subtree; after deleting the %d stored objects on the side where it is too large: %s", st.Stored, st.True, removed, msg)
+							return
+						}
+					}
+				}()
 				var gone *geom.Bounds
 				if c.Probe && len(m.Live) > 0 && m.Tree.Depth() >= 3 {
 					gone = m.Live[op.Idx%len(m.Live)].Bounds()
@@ -180,15 +267,8 @@ func run(c Case) (v vkit.Verdict) {
 					probes++
 					// around the object just removed and around the two removed before it (a box left too large by an
 					// earlier delete stays until an insert passes through it)
-					recent = append(recent, gone)
-					if len(recent) > 3 {
-						recent = recent[1:]
-					}
-					for _, b := range recent {
-						if msg = probe(m, b); msg != "" {
-							break
-						}
-					}
+					// (boxes left too large by earlier deletes are looked for in the structure, see exploit)
+					msg = probe(m, gone)
 				}
 			default:
 				msg = m.Step(op, &ev, false)
@@ -217,11 +297,13 @@ func TestProp(t *testing.T) {
 			"*Bounds/Point/comparable structs on a small integer grid or (a third of the histories) at non-integer positions, zero-width and zero-height boxes included, with hot-spot phases of coincident and nested boxes; interleaved queries NearestNeighbor(p) and NearestNeighbors(k,p) with p on the half-integer grid (plus a fractional offset in float histories) inside, outside " +
 			"and on box borders, k in 1..min(12,Size+3). Oracle: own point-box distance; NearestNeighbor returns a stored object at the minimum distance; NearestNeighbors returns k slots, " +
 			"first min(k,Size) non-nil stored objects (multiplicity respected) in non-decreasing distance whose j-th distance equals the j-th smallest over all stored objects, the rest nil. " +
-			"Three eighths of the histories are probe histories (two thirds of those: fan-out 2..4-6, a build phase of 25-160 inserts and 20-200 alternating deletes and inserts, boxes up to 9 wide, so " +
+			"Half of the histories are probe histories (two thirds of those: fan-out 2..4-6, a build phase of 25-160 inserts and 20-200 alternating deletes and inserts, boxes up to 9 wide, so " +
 			"that many deletes act on a tree of four and more levels): every delete on a tree of depth>=3 is followed by 80 k=1 queries (NearestNeighbor and NearestNeighbors(1,.) alternately) from sixteen directions at five " +
-			"distances around the removed object and around the two removed before it, each compared with the minimum over all stored objects. " +
+			"distances around the removed object, each compared with the minimum over all stored objects. After EVERY delete of every history the structure is read through the verif snapshot; if a node box is larger than the " +
+			"envelope of its subtree (which the pruning of a k=1 search relies on), the check deletes the stored objects lying on the side where the box is too large and issues 5041 k=1 queries from a grid around that box - " +
+			"only the answers of those public queries are judged. " +
 			"Non-trivial = a k>=2 query on a tree of depth>=2, a tie at the k-th distance, or a probe battery after a delete. Distinct by case hash.",
-		Assumptions: []string{"ties are compared by distance, not identity", "queries are only issued on non-empty trees",
+		Assumptions: []string{"ties are compared by distance, not identity", "queries are only issued on non-empty trees", "the search for misleading node boxes reads the structure through the build-tag verif snapshot (index/rtree/verif_walk.go); verdicts come from NearestNeighbor / NearestNeighbors only",
 			"coordinates stay below the magnitude (about 1e150) at which the package's squared distances and box areas overflow: beyond it Insert's area comparisons and the MaxFloat64 'nothing found yet' marker of the queries stop working (observed by a round-6 author: points at 1e200 queried from the origin give nil slots), which is a limit of the whole package, not of the search order this property is about"},
 		Gen:      gen,
 		Run:      run,
